@@ -68,6 +68,9 @@ func (s *Solutions) Scan(dest interface{}) error {
 		fields := make(map[string]interface{}, t.NumField())
 		for i := 0; i < t.NumField(); i++ {
 			f := t.Field(i)
+			if !f.IsExported() {
+				continue // Scan can't store into it; reflect panics at the attempt to take its address as an interface.
+			}
 			name := f.Name
 			if alias, ok := f.Tag.Lookup("prolog"); ok {
 				name = alias
